@@ -16,7 +16,9 @@ RULE = ("E3: for every unit u in {'seconds','minutes','hours',1,2,7,60,90,"
         "observation rate, buffer rates, cpu and bandwidths multiplied by "
         "f(u), capacities/demands/arrays/limits unchanged, same f in all "
         "three sections (volume rate*duration, rate<=max_ingest_rate and "
-        "floor(comp/cpu)*f invariant); non-trivial = unit with f>1")
+        "floor(comp/cpu)*f invariant); plus a factor sweep: every custom "
+        "integer factor 1..128 (512) and 150..86400 x every whole multiple "
+        "k=0..40 (100) of it as start/duration; non-trivial = unit with f>1")
 
 UNITS = ["seconds", "minutes", "hours", 1, 2, 7, 60, 90, 3600]
 
@@ -146,11 +148,26 @@ def domain(tier):
                    "demand": dem, "ingest": ing, "sysbw": sysbw}
 
 
+def factor_sweep(tier):
+    """every custom integer factor of a range x every whole multiple k of it
+    for start and duration (catches inexact conversions such as x * (1/f))"""
+    fs = list(range(1, 129 if tier != "thorough" else 513)) + \
+        [150, 300, 600, 900, 1800, 3600, 7200, 86400]
+    ks = range(0, 41 if tier != "thorough" else 101)
+    for f in fs:
+        for k in ks:
+            yield {"engine": "E3", "unit": f, "starts": [k, k + 1],
+                   "durs": [max(k, 1), k + 2], "rate": 3, "hotrate": 5,
+                   "coldrate": 2, "cpu": 2, "bw": 3, "hotcap": 10 ** 9,
+                   "coldcap": 10 ** 9, "arrays": 4, "max_ingest": 2,
+                   "demand": 2, "ingest": 1, "sysbw": 1}
+
+
 def run(rep, tier, seed):
     rep.rule = RULE
     rep.assumptions = ["values are whole multiples of the unit, as the "
                        "property says (no claim about rounding)"]
-    items = common.rotate(list(domain(tier)), seed)
+    items = common.rotate(list(domain(tier)) + list(factor_sweep(tier)), seed)
 
     def work(i, c):
         return judge(c)
